@@ -1,8 +1,11 @@
 import CJ.Drv.Loop
 import CJ.Drv.ConnHandler
-/-! Driver for C04: the connection-handler model (`conn|…` lines). -/
+import CJ.Drv.RelayClock
+/-! Driver for C04: the connection-handler model (`conn|…` lines) and the relay's deadlines on a
+virtual clock (`relayclock|…` lines). -/
 open CJ.Drv
 
 def main : IO Unit := runDriver fun
   | "conn" :: args => ConnHandler.handle args
+  | "relayclock" :: args => RelayClock.handle args
   | _ => none
